@@ -618,7 +618,7 @@ class LSym:
         self.calls[name] = self.calls.get(name, 0) + 1
         for pat, f in self.intercept:
             if re.search(pat, name) or (comment and re.search(pat, comment)):
-                return f(self, args, name)
+                return f(self, args, comment or name)
         if name.startswith("llvm."): return self.intrinsic(name, args)
         fn = self.mod.funcs.get(name)
         if fn is None:
